@@ -7,11 +7,11 @@
   (Mhd.Gen.Susp, regenerated on every run).  `guards_present` is the point where a guard that
   disappeared from daemon.c / connection.c breaks the build.
 
-  Quantification: every daemon history (`List Op`, any length): arrivals with any application
-  script (`Plan`: suspend points at the first call and its repetitions, at upload call i, at the
+  Quantification: every daemon history (`List Op`, any length) of a daemon started in any mode
+  with any application scripts (`plans : Nat → Plan`, one per connection index: suspend points at the first call and its repetitions, at upload call i, at the
   final call and its repetitions, at content-reader call j; per point the resume is issued
   after k rounds / in the callback right after the suspend / *before* the suspend (the other
-  order of the race with a second thread) / by an explicit operation), client sends of any
+  order of the race with a second thread) / by an explicit operation), arrivals, client sends of any
   symbols at any time, explicit resumes of any connection at any time (also of connections
   that are not suspended), rounds in select / poll / epoll mode with *any* readiness answer of
   the kernel, any number of connections.
@@ -31,27 +31,27 @@ theorem guards_present : srcGuards.Sound := by decide
 /-- The daemon's lists and the per-connection flags agree in every reachable state:
     a connection is in the suspended list iff its `suspended` flag is set; the suspended list is
     disjoint from the active list; the eready and timeout lists are sub-lists of the active list. -/
-theorem lists_consistent (m : Mode) (ops : List Op) : WF (run srcGuards (Daemon.init m) ops).1 :=
-  run_WF srcGuards guards_present ops _ (WF_init m)
+theorem lists_consistent (m : Mode) (plans : Nat → Plan) (ops : List Op) : WF (run srcGuards (Daemon.init m plans) ops).1 :=
+  run_WF srcGuards guards_present ops _ (WF_init m plans)
 
 /-- A suspended connection is in no list that an event loop traverses. -/
-theorem suspended_not_traversed (m : Mode) (ops : List Op) (c : Nat)
-    (hs : ((run srcGuards (Daemon.init m) ops).1.conn c).suspended = true) :
-    let d := (run srcGuards (Daemon.init m) ops).1
+theorem suspended_not_traversed (m : Mode) (plans : Nat → Plan) (ops : List Op) (c : Nat)
+    (hs : ((run srcGuards (Daemon.init m plans) ops).1.conn c).suspended = true) :
+    let d := (run srcGuards (Daemon.init m plans) ops).1
     c ∈ d.susp ∧ c ∉ d.active ∧ c ∉ d.eready ∧ c ∉ d.normalTO ∧ c ∉ d.newConns := by
-  have hw := lists_consistent m ops
+  have hw := lists_consistent m plans ops
   have h1 := (hw.susp_iff c).1 hs
-  have h2 : c ∉ (run srcGuards (Daemon.init m) ops).1.active := fun hm => hw.act_nosusp c hm h1
+  have h2 : c ∉ (run srcGuards (Daemon.init m plans) ops).1.active := fun hm => hw.act_nosusp c hm h1
   exact ⟨h1, h2, fun hm => h2 (hw.er_sub c hm), fun hm => h2 (hw.to_sub c hm), fun hm => (hw.new_fresh c hm).2 h1⟩
 
 /-- No resume request is ever lost: whenever a suspended connection has its `resuming` flag
     set, `daemon->resuming` is set as well, so the next resume_suspended_connections scans the
     list (this is what the `if (connection->resuming)` short-cut of internal_suspend_connection_
     protects). -/
-theorem no_lost_resume (m : Mode) (ops : List Op) (c : Nat) :
-    let d := (run srcGuards (Daemon.init m) ops).1
+theorem no_lost_resume (m : Mode) (plans : Nat → Plan) (ops : List Op) (c : Nat) :
+    let d := (run srcGuards (Daemon.init m plans) ops).1
     (d.conn c).suspended = true → (d.conn c).resuming = true → d.resuming = true :=
-  (lists_consistent m ops).no_lost c
+  (lists_consistent m plans ops).no_lost c
 
 /-- … and the entry points return first thing: even if an event loop did call them, the turn of
     a suspended connection does nothing (no callback, no recv/send, no state change). -/
@@ -69,34 +69,41 @@ theorem suspended_entry_points_return (ep rr wr : Bool) (k : Conn) (hk : k.suspe
     changes its processing state (`Conn.core`: everything but the socket's receive queue, the
     ghost copy of the client's bytes and the script timer) or moves it out of the suspended
     list.  A `send` of its own client only appends to the socket's receive queue. -/
-theorem suspended_frozen (m : Mode) (ops : List Op) (c : Nat) (op : Op)
-    (hs : c ∈ (run srcGuards (Daemon.init m) ops).1.susp)
-    (hr : ((run srcGuards (Daemon.init m) ops).1.conn c).resuming = false)
-    (ht : ((run srcGuards (Daemon.init m) ops).1.conn c).timer ≠ some 0)
+theorem suspended_frozen (m : Mode) (plans : Nat → Plan) (ops : List Op) (c : Nat) (op : Op)
+    (hs : c ∈ (run srcGuards (Daemon.init m plans) ops).1.susp)
+    (hr : ((run srcGuards (Daemon.init m plans) ops).1.conn c).resuming = false)
+    (ht : ((run srcGuards (Daemon.init m plans) ops).1.conn c).timer ≠ some 0)
     (hop : match op with
       | .resume c' => c' ≠ c
       | .round ids _ _ => ids.Nodup
       | .eround ids _ => ids.Nodup
       | _ => True) :
-    let d := (run srcGuards (Daemon.init m) ops).1
+    let d := (run srcGuards (Daemon.init m plans) ops).1
     proj c (step srcGuards d op).2 = [] ∧ c ∈ (step srcGuards d op).1.susp ∧
     ((step srcGuards d op).1.conn c).core = (d.conn c).core ∧
     ((step srcGuards d op).1.conn c).inbox
       = (d.conn c).inbox ++ (match op with | .send c' syms => if c' = c then syms else [] | _ => []) := by
-  have r := frozen_step srcGuards guards_present _ (lists_consistent m ops) c ⟨hs, hr⟩ ht op hop
+  have r := frozen_step srcGuards guards_present _ (lists_consistent m plans ops) c ⟨hs, hr⟩ ht op hop
   exact ⟨r.1, r.2.1.1, r.2.2.1, r.2.2.2⟩
 
 /-- QUIET.  In the event log of every history, projected on any connection: between an
     effective `suspend` and the `resumed` marker (the move back by resume_suspended_connections)
     there is no handler call, no content-reader call, no recv and no send for that connection,
     and no second suspend.  (`quietFrom` is the monitor; `some s` = accepted, `s` = suspended at
-    the end.)  Assumption on the application (`OpOK`): a content reader of a *known-size*
-    response that suspends returns 0 — or the write path is guarded (`writeReaderGuard`). -/
-theorem quiet_while_suspended (m : Mode) (ops : List Op) (hops : ∀ op ∈ ops, OpOK srcGuards op) (c : Nat) :
-    quietFrom false (proj c (run srcGuards (Daemon.init m) ops).2)
-      = some ((run srcGuards (Daemon.init m) ops).1.conn c).suspended := by
-  have h := run_QD srcGuards guards_present ops (Daemon.init m) (WF_init m) hops
-    (fun c => Or.inr (Or.inl rfl))
+    the end.)  Assumption on the application: a content reader of a *known-size* response that
+    suspends returns 0 — or the write path is guarded (`writeReaderGuard`, see `reader_data_witness`). -/
+theorem quiet_while_suspended (m : Mode) (plans : Nat → Plan) (ops : List Op)
+    (hplans : srcGuards.writeReader = true ∨ ∀ c, (plans c).rd = false ∨ (plans c).rkind = .cbUnknown) (c : Nat) :
+    quietFrom false (proj c (run srcGuards (Daemon.init m plans) ops).2)
+      = some ((run srcGuards (Daemon.init m plans) ops).1.conn c).suspended := by
+  have h := run_QD srcGuards guards_present ops (Daemon.init m plans) (by
+    intro a
+    unfold RdOK Conn.chunkedReply
+    rcases hplans with h | h
+    · exact Or.inl h
+    · rcases h a with h | h
+      · exact Or.inr (Or.inl h)
+      · exact Or.inr (Or.inr (by simp [Daemon.init, h])))
   exact h.1 c
 
 /-- RESUME RE-ENTERS AT THE SAME STATE.  A suspended connection whose resume was requested is
@@ -104,15 +111,15 @@ theorem quiet_while_suspended (m : Mode) (ops : List Op) (hops : ∀ op ∈ ops,
     traversal runs MHD_connection_handle_idle on it), out of the suspended list, `suspended` and
     `resuming` cleared, in epoll mode queued in the eready list as read- and write-ready — and
     nothing else of its record has changed (`resumedConn`). -/
-theorem resume_reenters (m : Mode) (ops : List Op) (c : Nat)
-    (hs : c ∈ (run srcGuards (Daemon.init m) ops).1.susp)
-    (hr : ((run srcGuards (Daemon.init m) ops).1.conn c).resuming = true) :
-    let d := (run srcGuards (Daemon.init m) ops).1
+theorem resume_reenters (m : Mode) (plans : Nat → Plan) (ops : List Op) (c : Nat)
+    (hs : c ∈ (run srcGuards (Daemon.init m plans) ops).1.susp)
+    (hr : ((run srcGuards (Daemon.init m plans) ops).1.conn c).resuming = true) :
+    let d := (run srcGuards (Daemon.init m plans) ops).1
     (c, CEv.resumed) ∈ (resumeSuspended srcGuards d).2 ∧ c ∈ (resumeSuspended srcGuards d).1.active ∧
     c ∉ (resumeSuspended srcGuards d).1.susp ∧
     (resumeSuspended srcGuards d).1.conn c = resumedConn srcGuards d.isEpoll (d.conn c) ∧
     (d.isEpoll = true → c ∈ (resumeSuspended srcGuards d).1.eready) :=
-  resume_moves_back srcGuards _ (lists_consistent m ops) c hs hr
+  resume_moves_back srcGuards _ (lists_consistent m plans ops) c hs hr
 
 theorem resumedConn_core (ep : Bool) (k : Conn) :
     (resumedConn srcGuards ep k).noEpoll = { k with suspended := false, resuming := false }.noEpoll ∧
@@ -140,40 +147,45 @@ theorem race_both_orders (ep : Bool) (k : Conn) (hs : k.suspended = false) (hr :
     handler so far, followed by the body bytes waiting in the read buffer and in the socket, are
     exactly the body bytes the client has sent — nothing is lost, duplicated or reordered, wherever
     and however often the connection was suspended. -/
-theorem upload_lossless (m : Mode) (ops : List Op) (c : Nat) :
-    let r := run srcGuards (Daemon.init m) ops
+theorem upload_lossless (m : Mode) (plans : Nat → Plan) (ops : List Op) (c : Nat) :
+    let r := run srcGuards (Daemon.init m plans) ops
     upBytes (proj c r.2) ++ dataOf (r.1.conn c).rbuf ++ dataOf (r.1.conn c).inbox = dataOf (r.1.conn c).sent :=
-  run_upload srcGuards ops (Daemon.init m) c (by rfl)
+  run_upload srcGuards ops (Daemon.init m plans) c rfl
 
 /-- LOSSLESS (reply side): the body bytes sent to the client so far, followed by the chunk
-    waiting in the write buffer, are exactly the first `rwp` bytes the application supplied; and
-    once the request is finished the client has received the whole body. -/
-theorem reply_lossless (m : Mode) (ops : List Op) (c : Nat) :
-    let r := run srcGuards (Daemon.init m) ops
+    waiting in the write buffer, are exactly the first `rwp` bytes the application supplied
+    (`patRange rid 0 rwp`); and once the request is finished the client has received the whole body. -/
+theorem reply_lossless (m : Mode) (plans : Nat → Plan) (ops : List Op) (c : Nat) :
+    let r := run srcGuards (Daemon.init m plans) ops
     let k := r.1.conn c
     wireBytes (proj c r.2) ++ k.wpend = patRange k.plan.rid 0 k.rwp ∧ k.rwp ≤ k.plan.size ∧
     (k.st = .finished → wireBytes (proj c r.2) = patRange k.plan.rid 0 k.plan.size) :=
-  run_reply srcGuards guards_present ops (Daemon.init m) c
+  run_reply srcGuards ops m plans c
 
-/-- STUTTER EQUIVALENCE.  Take any two histories — e.g. one with suspend points, resume delays
-    and interleavings of your choice, and the same script with all suspends erased — in which
-    connection `c` carries the same request (body kind, reply) and the client sent the same body
-    bytes.  If both ran the request to completion, the projections on `c` agree: the handler
-    consumed the same upload bytes and the client received the same reply body.  For
-    Content-Length uploads the consumed bytes are exactly the first `n` body bytes in both. -/
-theorem stutter_equivalence (m₁ m₂ : Mode) (ops₁ ops₂ : List Op) (c : Nat)
-    (hplan : ((run srcGuards (Daemon.init m₁) ops₁).1.conn c).plan.erase
-              = ((run srcGuards (Daemon.init m₂) ops₂).1.conn c).plan.erase)
-    (hsent : dataOf ((run srcGuards (Daemon.init m₁) ops₁).1.conn c).sent
-              = dataOf ((run srcGuards (Daemon.init m₂) ops₂).1.conn c).sent)
-    (hf₁ : ((run srcGuards (Daemon.init m₁) ops₁).1.conn c).st = .finished)
-    (hf₂ : ((run srcGuards (Daemon.init m₂) ops₂).1.conn c).st = .finished) :
-    wireBytes (proj c (run srcGuards (Daemon.init m₁) ops₁).2)
-      = wireBytes (proj c (run srcGuards (Daemon.init m₂) ops₂).2) ∧
-    (∀ n, ((run srcGuards (Daemon.init m₁) ops₁).1.conn c).plan.body = .cl n →
-      upBytes (proj c (run srcGuards (Daemon.init m₁) ops₁).2)
-        = upBytes (proj c (run srcGuards (Daemon.init m₂) ops₂).2)) :=
-  stutter srcGuards guards_present m₁ m₂ ops₁ ops₂ c hplan hsent hf₁ hf₂
+/-- a finished Content-Length request has delivered exactly its `n` body bytes to the handler -/
+theorem upload_complete (m : Mode) (plans : Nat → Plan) (ops : List Op) (c n : Nat)
+    (hb : (plans c).body = .cl n) (hf : ((run srcGuards (Daemon.init m plans) ops).1.conn c).st = .finished) :
+    (upBytes (proj c (run srcGuards (Daemon.init m plans) ops).2)).length = n :=
+  (run_count srcGuards ops m plans c n hb).2.late (by rw [hf]; rfl)
+
+/-- STUTTER EQUIVALENCE.  Take any two histories — e.g. one with suspend points, resume delays,
+    modes and interleavings of your choice, and the same script with all suspends erased
+    (`Plan.erase`) — in which connection `c` carries the same request (body kind, reply) and the
+    client sent the same body bytes.  If both ran the request to completion, the projections on `c`
+    agree: the client received the same reply body, and (Content-Length uploads) the handler
+    consumed the same upload bytes. -/
+theorem stutter_equivalence (m₁ m₂ : Mode) (pl₁ pl₂ : Nat → Plan) (ops₁ ops₂ : List Op) (c : Nat)
+    (hplan : (pl₁ c).erase = (pl₂ c).erase)
+    (hsent : dataOf ((run srcGuards (Daemon.init m₁ pl₁) ops₁).1.conn c).sent
+              = dataOf ((run srcGuards (Daemon.init m₂ pl₂) ops₂).1.conn c).sent)
+    (hf₁ : ((run srcGuards (Daemon.init m₁ pl₁) ops₁).1.conn c).st = .finished)
+    (hf₂ : ((run srcGuards (Daemon.init m₂ pl₂) ops₂).1.conn c).st = .finished) :
+    wireBytes (proj c (run srcGuards (Daemon.init m₁ pl₁) ops₁).2)
+      = wireBytes (proj c (run srcGuards (Daemon.init m₂ pl₂) ops₂).2) ∧
+    (∀ n, (pl₁ c).body = .cl n →
+      upBytes (proj c (run srcGuards (Daemon.init m₁ pl₁) ops₁).2)
+        = upBytes (proj c (run srcGuards (Daemon.init m₂ pl₂) ops₂).2)) :=
+  stutter srcGuards guards_present m₁ m₂ pl₁ pl₂ ops₁ ops₂ c hplan hsent hf₁ hf₂
 
 /-! ### non-vacuity, and witnesses that the guards are necessary -/
 
@@ -187,30 +199,37 @@ def demoSyms : List Sym := [.head, .sz 2, .b 1, .b 2, .crlf, .sz 1, .b 3, .crlf,
 
 def rounds (n : Nat) : List Op := List.replicate n (.round [0, 1] allReady allReady)
 
+def demoPlans : Nat → Plan := fun c => if c = 0 then demoPlan else { size := 3, rid := 2 }
+
 /-- two connections, the first one with suspend points of all four kinds -/
 def demoOps : List Op :=
-  [.arrive 0 demoPlan, .arrive 1 { size := 3, rid := 2 }, .send 0 demoSyms, .send 1 [.head]] ++ rounds 9
-    ++ [.resume 0] ++ rounds 9
+  [.arrive 0, .arrive 1, .send 0 demoSyms, .send 1 [.head]] ++ rounds 9 ++ [.resume 0] ++ rounds 9
 
-/-- the demo history suspends connection 0 five times (one of them cancelled by the earlier resume),
+/-- the demo history suspends connection 0 four times effectively and once in vain (resume first),
     serves both requests completely and leaves nobody suspended -/
-example : ((run srcGuards (Daemon.init .select) demoOps).1.conn 0).st = .finished ∧
-    ((run srcGuards (Daemon.init .select) demoOps).1.conn 1).st = .finished ∧
-    (run srcGuards (Daemon.init .select) demoOps).1.susp = [] ∧
-    ((proj 0 (run srcGuards (Daemon.init .select) demoOps).2).filter (· == .suspend true)).length = 4 ∧
-    ((proj 0 (run srcGuards (Daemon.init .select) demoOps).2).filter (· == .suspend false)).length = 1 ∧
-    upBytes (proj 0 (run srcGuards (Daemon.init .select) demoOps).2) = [1, 2, 3] := by decide
+example : ((run srcGuards (Daemon.init .select demoPlans) demoOps).1.conn 0).st = .finished ∧
+    ((run srcGuards (Daemon.init .select demoPlans) demoOps).1.conn 1).st = .finished ∧
+    (run srcGuards (Daemon.init .select demoPlans) demoOps).1.susp = [] ∧
+    ((proj 0 (run srcGuards (Daemon.init .select demoPlans) demoOps).2).filter (· == .suspend true)).length = 4 ∧
+    ((proj 0 (run srcGuards (Daemon.init .select demoPlans) demoOps).2).filter (· == .suspend false)).length = 1 ∧
+    upBytes (proj 0 (run srcGuards (Daemon.init .select demoPlans) demoOps).2) = [1, 2, 3] := by decide
+
+/-- the same request with every suspend erased runs to completion as well (hypotheses of
+    `stutter_equivalence` are satisfiable) -/
+example : ((run srcGuards (Daemon.init .epoll (fun c => (demoPlans c).erase))
+      ([.arrive 0, .send 0 demoSyms, .eround [0] [], .eround [0] [(0, true, true)], .eround [0] [], .eround [0] [],
+        .eround [0] [], .eround [0] []])).1.conn 0).st = .finished := by decide
 
 /-- a reachable state with one connection suspended (hypotheses of `suspended_frozen`) … -/
-example : (run srcGuards (Daemon.init .epoll)
-      [.arrive 0 demoPlan, .arrive 1 {}, .send 0 demoSyms, .eround [0, 1] [], .eround [0, 1] [(0, true, true)]]).1.susp = [0] ∧
-    ((run srcGuards (Daemon.init .epoll)
-      [.arrive 0 demoPlan, .arrive 1 {}, .send 0 demoSyms, .eround [0, 1] [], .eround [0, 1] [(0, true, true)]]).1.conn 0).resuming = false := by
+example : (run srcGuards (Daemon.init .epoll demoPlans)
+      [.arrive 0, .arrive 1, .send 0 demoSyms, .eround [0, 1] [], .eround [0, 1] [(0, true, true)]]).1.susp = [0] ∧
+    ((run srcGuards (Daemon.init .epoll demoPlans)
+      [.arrive 0, .arrive 1, .send 0 demoSyms, .eround [0, 1] [], .eround [0, 1] [(0, true, true)]]).1.conn 0).resuming = false := by
   decide
 
 /-- … and one with a pending resume request (hypotheses of `resume_reenters`) -/
-example : (run srcGuards (Daemon.init .select) ([.arrive 0 demoPlan, .send 0 demoSyms] ++ rounds 4)).1.susp = [0] ∧
-    ((run srcGuards (Daemon.init .select) ([.arrive 0 demoPlan, .send 0 demoSyms] ++ rounds 4)).1.conn 0).resuming = true := by
+example : (run srcGuards (Daemon.init .select demoPlans) ([.arrive 0, .send 0 demoSyms] ++ rounds 4)).1.susp = [0] ∧
+    ((run srcGuards (Daemon.init .select demoPlans) ([.arrive 0, .send 0 demoSyms] ++ rounds 4)).1.conn 0).resuming = true := by
   decide
 
 /-- the unchanged tree's `process_request_body` loops `while (instant_retry)` without looking at
@@ -223,17 +242,17 @@ def asIsGuards : Guards :=
     all in the read buffer, a handler that suspends in the first upload call is called again for
     the next chunk while the connection is suspended — the monitor rejects the log. -/
 theorem instant_retry_witness :
-    quietFrom false (proj 0 (run asIsGuards (Daemon.init .select)
-      ([.arrive 0 { body := .chunked, us := [(0, .manual)], size := 3 }, .send 0 demoSyms] ++ rounds 2)).2) = none := by
+    quietFrom false (proj 0 (run asIsGuards (Daemon.init .select (fun _ => { body := .chunked, us := [(0, .manual)], size := 3 }))
+      ([.arrive 0, .send 0 demoSyms] ++ rounds 2)).2) = none := by
   decide
 
 /-- WITNESS that the reader assumption of `quiet_while_suspended` is necessary as long as
     MHD_connection_handle_write sends right after try_ready_normal_body: a reader of a known-size
     response that suspends *and* returns data gets its block sent while suspended. -/
 theorem reader_data_witness :
-    quietFrom false (proj 0 (run { asIsGuards with bodyRetry := true } (Daemon.init .select)
-      ([.arrive 0 { rkind := .cbKnown, rs := [(1, .manual)], rd := true, size := 6, cbmax := 2 }, .send 0 [.head]]
-        ++ rounds 4)).2) = none := by
+    quietFrom false (proj 0 (run { asIsGuards with bodyRetry := true }
+      (Daemon.init .select (fun _ => { rkind := .cbKnown, rs := [(1, .manual)], rd := true, size := 6, cbmax := 2 }))
+      ([.arrive 0, .send 0 [.head]] ++ rounds 4)).2) = none := by
   decide
 
 end Mhd.C11
